@@ -1,6 +1,7 @@
 //! Deterministic simulation harness for RustPython/Parser (properties C13 and C15).
 //! See /verif/DESIGN.md.
 
+pub mod bigtext;
 pub mod c13a;
 pub mod c13b;
 pub mod c15;
